@@ -38,6 +38,10 @@ def chain_of(sampler):
     return a
 
 
+class _UserAbort(Exception):
+    """Raised by the scripted user callback (a failing monitor, a user abort)."""
+
+
 class _Incarnation:
     """One sampler object's life (until the crash that discards it)."""
 
@@ -108,6 +112,12 @@ class ExpRun:
                 p.trace.clear()
             inc.trans_evals.append(inc.cur_evals)
             inc.cur_evals = []
+            if getattr(self, "armed_cb_raise", None) is not None:
+                if self.armed_cb_raise <= 0:
+                    self.armed_cb_raise = None
+                    ctx.fault("callback_raises")
+                    raise _UserAbort("the user's callback raises")
+                self.armed_cb_raise -= 1
             if self.armed_cb_ckpt is not None:
                 n, path = self.armed_cb_ckpt
                 if n <= 0:
@@ -233,6 +243,13 @@ class ExpRun:
                         ctx.nontrivial = True
                     if o == "warmup":
                         ctx.hit("warmup_in_mid_run")
+                except _UserAbort:
+                    # the user's callback raised after a transition: the run is left early, the object lives on and the
+                    # caller continues with it.  Every transition made so far belongs to the record.
+                    done = self.cur_op_done
+                    inc.n_steps += done
+                    self.timeline = self._tl_add(self.timeline, o, done)
+                    ctx.nontrivial = True
                 except core.SimCrash:
                     # crash at an arbitrary instant inside a transition -> object is gone
                     inc = self._restart(inc, segs, "new_process" if ctx.sched.random() < .5 else "same_process",
@@ -240,6 +257,7 @@ class ExpRun:
                 for p in inc.probes:
                     p.fault_plan.clear()          # an armed crash that did not fire is disarmed
                 self.armed_cb_ckpt = None
+                self.armed_cb_raise = None
             elif o == "checkpoint":
                 path = op.get("path", "ck_a")
                 if pending_fs is not None:
@@ -259,6 +277,9 @@ class ExpRun:
                 self._save(inc, path, self.timeline)
             elif o == "fs_fault":
                 pending_fs = (op["at"], op["kind"])
+            elif o == "callback_raises":
+                if sc.get("cb", True):
+                    self.armed_cb_raise = int(op["k"])
             elif o == "checkpoint_in_callback":
                 if sc.get("cb", True):
                     self.armed_cb_ckpt = (int(op["k"]), op.get("path", "ck_cb"))
@@ -541,6 +562,8 @@ def gen_exp_case(r, tier):
             has_ck = True
         elif x < 0.30 and can_crash_inside and has_ck:
             ops.append({"op": "crash_in_step", "j": r.randint(0, 3 * n)})
+        elif x < 0.40 and sc["cb"]:
+            ops.append({"op": "callback_raises", "k": r.randint(0, n - 1)})
         ops.append({"op": "sample", "n": n})
         if r.random() < 0.12:
             ops[-1]["batch"] = r.randint(1, max(1, n))
